@@ -56,6 +56,19 @@ def write_cfg(path, c, emit=False, invariant="Theorems", props=True, extra_const
         f.write("CHECK_DEADLOCK FALSE\n")
 
 
+def tlc_named(ctx, d, base, name, cfg, **kw):
+    """lib.tlc on a wrapper module `<base>_<name>` (EXTENDS base): every concurrent run gets its own
+    module name and therefore its own metadir."""
+    mod = "%s_%s" % (base, name)
+    with open(os.path.join(d, mod + ".tla"), "w") as f:
+        f.write("---- MODULE %s ----\nEXTENDS %s\n====\n" % (mod, base))
+    return lib.tlc(ctx, d, mod, cfg, **kw)
+
+
+def odd_seed(ctx):
+    return ctx.seed % 2 == 1
+
+
 def mc_configs(ctx):
     q = ctx.quick()
     return [
@@ -65,8 +78,11 @@ def mc_configs(ctx):
                       buffers=[0, 1, 3] if q else [0, 1, 2, 3], fees=[0, 1, 3] if q else [0, 1, 2, 3],
                       caps=[1, 2, 3, 13, 15, 29], answers=[0, 1, 2, 3])),
         # many notes: the fee steps at multiples of F = 14 and the caps around them
-        ("many", dict(min=1, max=5, lo=60 if q else 0, hi=180 if q else 260, buffers=[0, 1], fees=[0, 1, 3],
-                      caps=[13, 14, 15, 28, 29, 64], answers=[0, 1, 2, 3, 4])),
+        # (quick: the 15-note step on odd seeds, the 29-note step on even seeds)
+        ("many", dict(min=1, max=5, lo=(60 if odd_seed(ctx) else 130) if q else 0,
+                      hi=(100 if odd_seed(ctx) else 180) if q else 260, buffers=[0, 1], fees=[0, 1, 3],
+                      caps=([13, 14, 15, 64] if odd_seed(ctx) else [28, 29, 64]) if q else [13, 14, 15, 28, 29, 64],
+                      answers=[0, 1, 2, 3, 4])),
         # another floor, a maximum that is not itself a denomination
         ("floor", dict(min=10, max=700, lo=0, hi=800 if q else 1700, buffers=[0, 3], fees=[0, 2],
                        caps=[1, 3, 29], answers=[0, 1, 2])),
@@ -92,9 +108,10 @@ def emit_configs(ctx):
     if ctx.quick():
         out.append(("A", dict(min=1, max=1000, extra=boundary_totals(series, [2000, 2500], rng, 40, 2600),
                               buffers=[0, 1, 3], fees=[0, 1, 3], caps=[1, 2, 3, 29], answers=[0, 1, 2, 3])))
-        many = set(range(64, 93)) | set(range(136, 178))
+        # the 15-note fee step on odd seeds, the 29-note step on even seeds (V covers both every run)
+        many = set(range(64, 93)) if odd_seed(ctx) else set(range(136, 178))
         out.append(("B", dict(min=1, max=5, extra=sorted(many), buffers=[0, 1], fees=[0, 3],
-                              caps=[14, 15, 29], answers=[0, 1, 2, 3, 4])))
+                              caps=[14, 15, 29] if odd_seed(ctx) else [28, 29, 64], answers=[0, 1, 2, 3, 4])))
         fl = [10 * x for x in series if 10 * x <= 700]
         out.append(("C", dict(min=10, max=700, extra=boundary_totals(fl, [1400], rng, 20, 1700),
                               buffers=[0, 3], fees=[0, 2], caps=[1, 3, 29], answers=[0, 1, 2])))
@@ -161,7 +178,7 @@ def replay_direction(ctx, d, bindir):
     for name, c in emit_configs(ctx):
         cfg = "Emit_%s.cfg" % name
         write_cfg(os.path.join(d, cfg), c, emit=True, invariant=None)
-        r = lib.tlc(ctx, d, "MC_Denomination", cfg, workers=1, timeout=2400, coverage=False)
+        r = tlc_named(ctx, d, "MC_Denomination", "emit" + name, cfg, workers=1, timeout=2400, coverage=False)
         cases = r.prints("CASE")
         r.out = ""
         if not cases:
@@ -193,7 +210,7 @@ def replay_direction(ctx, d, bindir):
     with open(os.path.join(d, cfg), "w") as f:
         f.write("SPECIFICATION Spec\nCONSTANTS\n  HiMax = %d\n  Floors = {1, 10, 100}\n  Emit = TRUE\nCHECK_DEADLOCK FALSE\n"
                 % (2600 if ctx.quick() else 12000))
-    r = lib.tlc(ctx, d, "L125", cfg, workers=1, timeout=900, coverage=False)
+    r = tlc_named(ctx, d, "L125", "emit", cfg, workers=1, timeout=900, coverage=False)
     rows = r.prints("L125")
     if not rows:
         raise lib.ToolError("no L125 rows emitted")
@@ -246,7 +263,7 @@ def describe(rec):
         return ("%s(total=%s, note_count=%s, cap=%s, buffer=%s, fee=%s; min=10^%s max=%s) oracle %s answers %s -> "
                 "outcome %s crossings %s change %s prep_fees %s rngSame=%s ncSame=%s storedSame=%s"
                 % (rec["via"], num(rec["total"]), rec["nc"], rec["cap"], num(rec["buffer"]), num(rec["fee"]),
-                   rec["minExp"], num(rec["maxDenom"]), rec.get("oracle"), rec["answers"][:12], rec["outcome"],
+                   rec["minExp"], num(rec["maxDenom"]), rec.get("oracle"), ["None" if a == [-1] else num(a) for a in rec["answers"][:12]], rec["outcome"],
                    [num(c) for c in rec["crossings"]][:12], num(rec["change"]), num(rec["prepFees"]),
                    rec["rngSame"], rec["ncSame"], rec["storedSame"]))
     if a == "stored":
@@ -273,6 +290,8 @@ def trace_direction(ctx, d, bindir):
         k = r["a"]
         if k == "plan":
             k = "plan_nonempty" if r["crossings"] else "plan_empty"
+            if any(len(a) > 12 for a in r["answers"]):
+                kinds["plan_fee_overflow_answer"] = kinds.get("plan_fee_overflow_answer", 0) + 1
             if len(r["answers"]) > 1:
                 kinds["plan_with_refusals"] = kinds.get("plan_with_refusals", 0) + 1
             if len(r["crossings"]) >= 15:
@@ -283,7 +302,7 @@ def trace_direction(ctx, d, bindir):
             k = "stored_" + r["result"]
         kinds[k] = kinds.get(k, 0) + 1
     for need in ["plan_nonempty", "plan_empty", "plan_with_refusals", "plan_15_or_more_notes", "plan_single_exact",
-                 "stored_ok", "stored_overflow", "l125", "canon"]:
+                 "plan_fee_overflow_answer", "stored_ok", "stored_overflow", "l125", "canon"]:
         if not kinds.get(need):
             raise lib.ToolError("vacuity: the driver produced no %s line" % need)
     # strided chunks, so that the expensive many-note lines spread evenly
@@ -317,28 +336,40 @@ def trace_direction(ctx, d, bindir):
 
 # ------------------------------------------------------------------------------------------------
 
-def model_checking(ctx, d):
+def sany_all(d):
     for m in ["Denomination", "MC_Denomination", "DenominationD", "Trace_Denomination", "MC_DenominationEquiv", "L125",
               "DecNat", "MC_DecNat"]:
         lib.sany(os.path.join(d, m + ".tla"))
-    # DecNat against native arithmetic
-    with open(os.path.join(d, "MC_DecNat_run.cfg"), "w") as f:
-        f.write("SPECIFICATION Spec\nCONSTANTS\n  Bound = %d\nINVARIANT Laws\nCHECK_DEADLOCK FALSE\n"
-                % (130 if ctx.quick() else 420))
-    r = lib.tlc(ctx, d, "MC_DecNat", "MC_DecNat_run.cfg", workers=8, timeout=1800, coverage=False)
-    lib.account_tlc(ctx, r)
-    # the theorems, for every oracle behaviour
-    for name, c in mc_configs(ctx):
+
+
+def mc_main(ctx, d, workers):
+    """The theorems for every oracle behaviour, main domain."""
+    name, c = mc_configs(ctx)[0]
+    cfg = "MC_%s.cfg" % name
+    write_cfg(os.path.join(d, cfg), c)
+    r = tlc_named(ctx, d, "MC_Denomination", name, cfg, workers=workers, timeout=3000)
+    lib.require_coverage(r, ACTIONS)
+    r.out = ""
+    return [r]
+
+
+def mc_rest(ctx, d, workers):
+    """The other domains, DecNat vs native arithmetic, DecNat restatement == native rule, L125."""
+    res = []
+    for name, c in mc_configs(ctx)[1:]:
         cfg = "MC_%s.cfg" % name
         write_cfg(os.path.join(d, cfg), c)
-        r = lib.tlc(ctx, d, "MC_Denomination", cfg, workers=8, timeout=3000)
+        r = tlc_named(ctx, d, "MC_Denomination", name, cfg, workers=workers, timeout=3000)
         lib.require_coverage(r, ACTIONS)
-        lib.account_tlc(ctx, r)
         r.out = ""
-    # DecNat restatement == native rule
-    eq = [("eq0", dict(min=1, max=100, extra=list(range(0, 31)) + [49, 50, 51, 52, 53, 99, 100, 101, 102, 103, 104, 105,
-                                                                  199, 200, 201, 210, 250, 251, 260],
-                       buffers=[0, 1, 3], fees=[0, 1, 3], caps=[1, 2, 3, 29], answers=[0, 1, 2, 3]), 0)]
+        res.append(r)
+    with open(os.path.join(d, "MC_DecNat_run.cfg"), "w") as f:
+        f.write("SPECIFICATION Spec\nCONSTANTS\n  Bound = %d\nINVARIANT Laws\nCHECK_DEADLOCK FALSE\n"
+                % (110 if ctx.quick() else 420))
+    res.append(lib.tlc(ctx, d, "MC_DecNat", "MC_DecNat_run.cfg", workers=workers, timeout=1800, coverage=False))
+    eq = [("eq0", dict(min=1, max=100, extra=list(range(0, 24)) + [49, 50, 51, 53, 99, 100, 101, 104, 105, 199, 200,
+                                                                  201, 210, 250, 251, 260],
+                       buffers=[0, 1, 3], fees=[0, 1, 3], caps=[1, 2, 29], answers=[0, 1, 2, 3]), 0)]
     if not ctx.quick():
         eq.append(("eq1", dict(min=10, max=700, lo=0, hi=400, buffers=[0, 3], fees=[0, 2], caps=[1, 3, 29],
                                answers=[0, 1, 2]), 1))
@@ -347,17 +378,18 @@ def model_checking(ctx, d):
     for name, c, minexp in eq:
         cfg = "MC_%s.cfg" % name
         write_cfg(os.path.join(d, cfg), c, invariant="Equiv", props=False, extra_consts="  MinExp = %d\n" % minexp)
-        # MC_DenominationEquiv extends Denomination (Totals given explicitly through the wrapper constants)
-        r = lib.tlc(ctx, d, "MC_DenominationEquivW", cfg, workers=8, timeout=3000)
+        # MC_DenominationEquivW: MC_DenominationEquiv + the range/extra constants of MC_Denomination
+        r = tlc_named(ctx, d, "MC_DenominationEquivW", name, cfg, workers=workers, timeout=3000)
         lib.require_coverage(r, ACTIONS)
-        lib.account_tlc(ctx, r)
         r.out = ""
+        res.append(r)
     with open(os.path.join(d, "MC_L125_run.cfg"), "w") as f:
         f.write("SPECIFICATION Spec\nCONSTANTS\n  HiMax = %d\n  Floors = {1, 10, 100}\n  Emit = FALSE\nINVARIANT Law\n"
                 "CHECK_DEADLOCK FALSE\n" % (2600 if ctx.quick() else 12000))
-    r = lib.tlc(ctx, d, "L125", "MC_L125_run.cfg", workers=8, timeout=900)
+    r = tlc_named(ctx, d, "L125", "mc", "MC_L125_run.cfg", workers=workers, timeout=900)
     lib.require_coverage(r, ["Eval"])
-    lib.account_tlc(ctx, r)
+    res.append(r)
+    return res
 
 
 def stage(ctx):
@@ -372,8 +404,17 @@ def stage(ctx):
 def run(ctx):
     bindir = lib.cargo_build("h_tx", BINS)
     d = stage(ctx)
-    model_checking(ctx, d)
-    n_replayed, distinct, st = replay_direction(ctx, d, bindir)
+    sany_all(d)
+    # three lanes side by side, 8 TLC workers in all: the main model-checking run, the other
+    # model-checking runs, and behaviour emission (single worker by construction) + replay
+    with concurrent.futures.ThreadPoolExecutor(max_workers=3) as ex:
+        f_main = ex.submit(mc_main, ctx, d, 4)
+        f_rest = ex.submit(mc_rest, ctx, d, 3)
+        f_rep = ex.submit(replay_direction, ctx, d, bindir)
+        mc_results = f_main.result() + f_rest.result()
+        n_replayed, distinct, st = f_rep.result()
+    for r in mc_results:
+        lib.account_tlc(ctx, r)
     n_lines, kinds = trace_direction(ctx, d, bindir)
     ctx.traces = n_replayed + n_lines
     ctx.extra["replay_case_kinds"] = st
@@ -390,9 +431,7 @@ def run(ctx):
         extra={"exhaustive": True,
                "bounds": {name: {k: (v if not isinstance(v, list) or len(v) < 12 else "%d values" % len(v))
                                  for k, v in c.items()} for name, c in mc_configs(ctx)}},
-        assumptions=["oracle answers n with n * fee < 2^64 (the product is a plain u64 multiplication in plan(); the "
-                     "driver keeps n <= 10^6 + 1 and fee < 10^6)",
-                     "min_denomination is a power of ten (documented precondition of CanonicalOneTwoFive::new)",
+        assumptions=["min_denomination is a power of ten (documented precondition of CanonicalOneTwoFive::new)",
                      "F = FUNDING_OUTPUTS_PER_TX = 14 is restated in the specification, not read from the code",
                      "the oracle is consulted once per candidate prefix, in order (the documented reconcile loop); "
                      "engine::plan_migration's preview is not exercised"])
